@@ -238,6 +238,11 @@ class SimConn:
                 and not self.closed and self.task is None:
             self.sim.violations.append(('seam/connection-used-across-processes',
                                         'connection opened by pid %s used by pid %s' % (self.pid, self.sim.harness_proc.pid)))
+        if ACTIVE is self.sim:
+            self.sim.hsteps += 1
+            if self.sim.hsteps > self.sim.hcap:
+                self.sim.hcap = 1 << 60     # report once; what follows (cleanup) runs normally
+                raise NoProgress('the harness thread executed more than %d statements: a call does not return' % self.sim.hcap)
         before = self.real.in_transaction
         cur = self.real.execute(stmt, params)
         if before and not self.real.in_transaction and ACTIVE is self.sim:
@@ -285,6 +290,10 @@ class SimConn:
 
     def __getattr__(self, name):
         return getattr(self.real, name)
+
+
+class NoProgress(Exception):
+    """A call made by the harness thread ran past the statement cap (deterministic stand-in for 'never returns')."""
 
 
 class SimSqlite:
